@@ -263,8 +263,8 @@ PROPS['C09'] = dict(
     level_note='Trusted: rustc, Kani + CBMC. Not decided: WaitingState::handle_chord accumulation and decomposition, the control flow of ChordsV2::process_presses around the closure bodies that are under contract (reads an FxHashMap), what handle_chord puts into the pressed queue.',
     technique='contract harnesses (Kani/CBMC): symbolic tables / queues within stated bounds, set-theoretic oracles from the statement',
     design_ref='DESIGN.md section 4, C09',
-    explanation='chord tables (v1): ChordsGroup::{get_keys, get_chord, get_chord_if_unambiguous} are proved UNBOUNDED by Verus (unit chordtab: first entry for the coordinate; exact-set match; unambiguous iff no defined chord strictly contains the pressed set - via an assumed try_fold / find contract for pure closures and closure annotations generated from the closure text, R12) in addition to the bounded Kani harnesses; v2 get_active_chord (cut whole, same unit) is proved UNBOUNDED too: an activated chord starts out with coordinate / age / action / participants as given, waits for EVERY participant under release-on-last-release and for nothing otherwise, and starts out already released iff a release was seen while collecting and the rule is release-on-first-release (heapless extend -> helper with the capacity as precondition: a chord has <= 16 participants, an observation about the parser\'s limit); three closure BODIES of chords v2 are fragments with their captures as parameters (same unit): release_in_active_chord (the for_each closure of drain_releases: a non-participant changes nothing; a participant is struck off the keys still to be released and the chord counts as released exactly when none is left), chord_is_exactly_the_pressed_set (x3: the predicate handed to find() at the three places process_presses looks for a completed chord accepts a chord iff its participants and the accumulated presses are the SAME set - `xs.iter().all(|v| ys.contains(v))` -> assumed subset helpers, R48), drop_consumed_presses (the last statement of process_presses: exactly the queued presses of the keys that went into the chord are removed, every other queued event stays in order); the iteration around them (ArrayDeque / heapless retain, iter_mut().for_each, filter().find()) is std and assumed; forward_while_ignoring_chords (the first statement of drain_inputs, a fragment): while chords are being ignored the input queue is forwarded to the 16-slot drain queue and NOTHING IS LOST - forwarded events followed by what is still queued are the old drain queue followed by the old input queue, in order; the contract of `extend` it relies on (a Wrapping ArrayDeque takes only what fits and drops the rest of the iterator) is what the library does and is cross-checked on the real crate by the Kani harness c09_k_arraydeque_extend_takes_what_fits; this obligation FAILED on the tree as found (finding F6, repaired by a fix: commit); the rest of chord release tracking (v2): Kani; v1 "action repeated on every participating coordinate": Verus unit waiting (shared with C05): after the tap action ran at the chord coordinate, waiting_into_tap performs each simple action (key / output chord / one-shot / layer, also as members of a multi) once on every coordinate of the pressed queue, in order, and nothing else (spec fn repeats).',
-    verus=[dict(unit='chordtab'), dict(unit='waiting', only=['waiting_into_tap', 'lemma_sigs_push'])],
+    explanation='F7 / forwarding to the layout (unit waiting, fragment tick_forward_chv2 = the chords-v2 prologue of Layout::tick, UNBOUNDED): everything chords v2 lets through in a tick reaches the state machine - the events handed to dequeue followed by the event queue are afterwards what they were before followed by that tick\'s output, in order, also when the 32-slot queue is full (assumed: do_action / dequeue do not touch the queue; u16 delays fit). chord tables (v1): ChordsGroup::{get_keys, get_chord, get_chord_if_unambiguous} are proved UNBOUNDED by Verus (unit chordtab: first entry for the coordinate; exact-set match; unambiguous iff no defined chord strictly contains the pressed set - via an assumed try_fold / find contract for pure closures and closure annotations generated from the closure text, R12) in addition to the bounded Kani harnesses; v2 get_active_chord (cut whole, same unit) is proved UNBOUNDED too: an activated chord starts out with coordinate / age / action / participants as given, waits for EVERY participant under release-on-last-release and for nothing otherwise, and starts out already released iff a release was seen while collecting and the rule is release-on-first-release (heapless extend -> helper with the capacity as precondition: a chord has <= 16 participants, an observation about the parser\'s limit); three closure BODIES of chords v2 are fragments with their captures as parameters (same unit): release_in_active_chord (the for_each closure of drain_releases: a non-participant changes nothing; a participant is struck off the keys still to be released and the chord counts as released exactly when none is left), chord_is_exactly_the_pressed_set (x3: the predicate handed to find() at the three places process_presses looks for a completed chord accepts a chord iff its participants and the accumulated presses are the SAME set - `xs.iter().all(|v| ys.contains(v))` -> assumed subset helpers, R48), drop_consumed_presses (the last statement of process_presses: exactly the queued presses of the keys that went into the chord are removed, every other queued event stays in order); the iteration around them (ArrayDeque / heapless retain, iter_mut().for_each, filter().find()) is std and assumed; forward_while_ignoring_chords (the first statement of drain_inputs, a fragment): while chords are being ignored the input queue is forwarded to the 16-slot drain queue and NOTHING IS LOST - forwarded events followed by what is still queued are the old drain queue followed by the old input queue, in order; the contract of `extend` it relies on (a Wrapping ArrayDeque takes only what fits and drops the rest of the iterator) is what the library does and is cross-checked on the real crate by the Kani harness c09_k_arraydeque_extend_takes_what_fits; this obligation FAILED on the tree as found (finding F6, repaired by a fix: commit); the rest of chord release tracking (v2): Kani; v1 "action repeated on every participating coordinate": Verus unit waiting (shared with C05): after the tap action ran at the chord coordinate, waiting_into_tap performs each simple action (key / output chord / one-shot / layer, also as members of a multi) once on every coordinate of the pressed queue, in order, and nothing else (spec fn repeats).',
+    verus=[dict(unit='chordtab'), dict(unit='waiting', only=['waiting_into_tap', 'lemma_sigs_push', 'tick_forward_chv2', 'waiting_into_hold'])],
     kani=[
         H('keyberon', 'action', 'c09_b_get_chord', kind='bounded', bound='<= 3 chords, 128-bit sets symbolic', functions=[A + 'ChordsGroup::get_chord']),
         H('keyberon', 'action', 'c09_b_get_chord_if_unambiguous', kind='bounded', bound='<= 3 chords', functions=[A + 'ChordsGroup::get_chord_if_unambiguous']),
@@ -328,6 +328,7 @@ PROPS['C02'] = dict(
     verus=[dict(unit='dynmacro', only=DYN_FUNCS), dict(unit='switch'), dict(unit='oneshot'), dict(unit='waiting'), dict(unit='ticks'), dict(unit='repeat'), dict(unit='seqs'), dict(unit='layers'), dict(unit='sexpr'), dict(unit='reload'), dict(unit='holdtap'), dict(unit='chordtab'), dict(unit='overrides'), dict(unit='customth'), dict(unit='input')],
     kani=_c02_kani(),
     assumptions=[
+        'tick_forward_chv2 (F7): ASSUMED frame - Layout::do_action and Layout::dequeue (stubs) leave self.queue unchanged (from reading: neither they nor their callees name self.queue); ASSUMED u16 arithmetic - the press-to-decision delay of every undecided key fits (delays_fit, re-asserted by both stubs); ChordsV2::tick_chv2 / get_action_chv2 are stubs here (tick output uninterpreted, <= 16 events); `for queued in q.drain(0..)` is verified as `while let Some(queued) = q.pop_front()` (R60); arraydeque push_back / pop_front / Extend contracts assumed (Kani cross-checks c02_k_arraydeque_wrapping_contract, c09_k_arraydeque_extend_takes_what_fits)',
         'NOT covered: Layout::{tick, do_action, event} outside the fragments named above, resolve_coord, process_sequences, ChordsV2::process_presses, every Kanata method except handle_repeat_actual and handle_scrolling (handle_move_mouse uses f64; tick_sequence_state returns a &mut from a getter), the parser',
         'preconditions that carry parser promises (unchecked on the parser side, whose checking functions are closure chains): scroll interval >= 1 (handle_scrolling), expression depth <= 8 (evaluator; the compiler prologue fragment establishes it), layer numbers index key_outputs (handle_repeat_actual), a tap-dance lists >= 1 action, w.delay + w.ticks <= 65535 (waiting_into_*)',
         'switch evaluation: expression depth <= 8 and well-formed opcode stream are preconditions (parser promises, unchecked)',
@@ -423,9 +424,10 @@ PROPS['C04'] = dict(
     explanation=('Unit layers. resolve_coord: *r == resolved(layers, src_keys, x, y, order, 0) under x < R, y < C, order names existing layers; State::{coord, keycode, get_layer, release}; CustomEvent::update; '
                  'set_default_layer; do_action_key_code_head / do_action_layer / do_action_default_layer: states\' == pushed(states, NormalKey{keycode, coord, flags 0} | LayerModifier{value, coord}), '
                  'one-shot logic told Other(coord) unless is_oneshot, base layer changed only by DefaultLayer and only to an existing layer.'),
-    verus=[dict(unit='layers'), dict(unit='waiting', only=['event_real', 'from', 'push_back_chv2'])],
+    verus=[dict(unit='layers'), dict(unit='waiting', only=['event_real', 'from', 'push_back_chv2', 'tick_forward_chv2'])],
     kani=[],
     assumptions=[
+        'tick_forward_chv2 (F7): ASSUMED frame - Layout::do_action and Layout::dequeue (stubs) leave self.queue unchanged (from reading: neither they nor their callees name self.queue); ASSUMED u16 arithmetic - the press-to-decision delay of every undecided key fits (delays_fit, re-asserted by both stubs); ChordsV2::tick_chv2 / get_action_chv2 are stubs here (tick output uninterpreted, <= 16 events); `for queued in q.drain(0..)` is verified as `while let Some(queued) = q.pop_front()` (R60); arraydeque push_back / pop_front / Extend contracts assumed (Kani cross-checks c02_k_arraydeque_wrapping_contract, c09_k_arraydeque_extend_takes_what_fits)',
         'Layout::event (unit waiting, extracted as event_real): proved that while fewer than 32 events are pending an incoming event is appended with age 0 to the queue that feeds the state machine (the chords-v2 queue when configured) and nothing else happens - "No event is lost, duplicated or reordered while fewer than 32 events are pending"; the flood path (33rd event) is in the extracted text but excluded by the precondition, i.e. NOT verified',
         'NOT decided: which order is handed to resolve_coord (held layers newest first, base layer, optional layer 0): trans_resolution_layer_order / current_layer / active_held_layers are iterator chains with closures, outside Verus; Kani on a Layout instance was measured infeasible (DESIGN 2)',
         'NOT decided: Layout::dequeue Release arm (retain closure that mutates a captured CustomEvent), Layout::tick as a whole (one event per tick, FIFO), Layout::event, the rest of do_action (MultipleKeyCodes, multi, release-key/layer), Kanata::handle_keystate_changes (ordered, de-duplicated emission), the parser\'s layer table construction',
@@ -441,20 +443,20 @@ PROPS['C18'] = dict(
     level='other',
     level_text=('SMALL SCOPE, unbounded proofs (Verus/Z3): (1) the one function every virtual-key operation goes through, handle_fakekey_action (src/kanata/mod.rs, cut whole): '
                 'press queues a press of the virtual key\'s coordinate, release a release, tap both with the press first, toggle a release if a state exists at the coordinate and a press otherwise. '
-                '(2) The timed forms, as FRAGMENTS (the bodies of the closures handed to HashMap::retain / entry().or_insert_with / HashSet::retain, wrapped in synthetic signatures with their captures as parameters): '
-                'hold-for-duration - first activation presses the virtual key and starts its countdown at the configured duration (vkey_hold_start); each millisecond the countdown goes down by one (saturating) and the key is released, and forgotten, exactly when it reaches zero (vkey_countdown_one); '
+                '(2) The timed forms, as FRAGMENTS (the bodies of the closures handed to HashMap::retain / entry().and_modify / entry().or_insert_with / HashSet::retain, wrapped in synthetic signatures with their captures as parameters): '
+                'hold-for-duration - first activation presses the virtual key and starts its countdown at the configured duration (vkey_hold_start); a re-activation while the key is still pending restarts the countdown at the stated duration of that most recent activation, whatever was left (vkey_hold_rearm, the expression closure of and_modify); each millisecond the countdown goes down by one (saturating) and the key is released, and forgotten, exactly when it reaches zero (vkey_countdown_one); '
                 'on-idle - a pending action fires, through handle_fakekey_action, exactly when kanata has been idle for at least the configured time, and is then forgotten; otherwise nothing happens and it stays pending (idle_fire_one). '
                 'NOT decided: the std semantics the fragments sit in (retain calls the closure once per entry and keeps it iff true; entry().and_modify(f).or_insert_with(g): re-arm vs insert), ticks_since_idle bookkeeping, '
                 'that the four sources (key, macro, sequence, TCP) all call these functions, that toggle ALTERNATES over a history (it does iff a press creates and a release removes a state at the coordinate: Layout, see C04), '
                 'and what the queued events then do.'),
     level_note='Trusted: rustc, Verus+Z3, extractor. Assumed: Layout::event appends to the queue (logged stub); states_has_coord (`.iter().any(closure)`) decides "a state exists at the coordinate"; `match deadline {` on a `&mut u16` is rewritten to `match *deadline {` (R45: this Verus does not match a reference against a literal pattern); HashMap / HashSet retain and the entry API are outside.',
-    technique='contract-based deductive verification (Verus) of one dispatcher function and three closure bodies against a ghost event log',
+    technique='contract-based deductive verification (Verus) of one dispatcher function and four closure bodies against a ghost event log',
     design_ref='DESIGN.md section 9.1b (C18)',
-    explanation='Unit vkeys: handle_fakekey_action appends exactly [Press] / [Release] / [Press, Release] / [held ? Release : Press] for the coordinate (x, y) to the layout event log. vkey_countdown_one: deadline\' == deadline - 1 (saturating), kept iff deadline\' != 0, Release(coord) queued iff deadline\' == 0. vkey_hold_start: Press(coord) queued, returns the duration. idle_fire_one (caller of handle_fakekey_action, checked against its contract): fires iff ticks_since_idle >= idle_duration, queues exactly that action\'s events, returns false (dropped); else true and nothing changes.',
+    explanation='Session 3: State::release_state (release-key / release-layer applied to one active state) is under contract, whole: a key state ends iff it holds exactly the named key code, a layer state iff it holds exactly the named layer, every other state is kept unchanged (named_by); and the chords-v2 prologue of Layout::tick (unit waiting, fragment tick_forward_chv2, F7) loses no event: dequeued + queue afterwards == dequeued + queue before + the tick output of chords v2, in order, for every fill level of the 32-slot queue. Unit vkeys: handle_fakekey_action appends exactly [Press] / [Release] / [Press, Release] / [held ? Release : Press] for the coordinate (x, y) to the layout event log. vkey_countdown_one: deadline\' == deadline - 1 (saturating), kept iff deadline\' != 0, Release(coord) queued iff deadline\' == 0. vkey_hold_start: Press(coord) queued, returns the duration. vkey_hold_rearm: the pending countdown becomes exactly the new duration. idle_fire_one (caller of handle_fakekey_action, checked against its contract): fires iff ticks_since_idle >= idle_duration, queues exactly that action\'s events, returns false (dropped); else true and nothing changes.',
     verus=[dict(unit='vkeys')],
     kani=[],
     assumptions=[
-        'NOT decided: HashMap::retain / HashSet::retain / entry().and_modify().or_insert_with() themselves (the closures\' BODIES are under contract, their callers\' iteration is std), the and_modify closure `|d| *d = duration` (one assignment), ticks_since_idle bookkeeping (it is reset in handle_input_event: unit input)',
+        'NOT decided: HashMap::retain / HashSet::retain / entry().and_modify().or_insert_with() themselves (the closures\' BODIES are under contract, their callers\' iteration is std), ticks_since_idle bookkeeping (it is reset in handle_input_event: unit input)',
         'NOT decided: call sites (custom action handler, macro / sequence activation, tcp_server) and Layout::event / dequeue / do_action for row-1 coordinates',
         'states_has_coord is an assumed stub (closure in Iterator::any)',
         'R45: `match deadline {` with `deadline: &mut u16` and literal patterns -> `match *deadline {`',
